@@ -49,16 +49,17 @@ type Expect struct {
 }
 
 type Cfg struct {
-	Sandbox   bool     `json:"sandbox"`   // engine has a security policy
-	AllowF    []string `json:"allowf"`    // filters the policy allows
-	AllowFn   []string `json:"allowfn"`   // functions the policy allows
-	FaultID   string   `json:"faultid"`   // spy id whose nth invocation fails
-	FaultNth  int      `json:"faultnth"`  //
-	Loader    bool     `json:"loader"`    // serve templates through an ArrayLoader
-	Debug     bool     `json:"debug"`     // engine debug mode
-	Writer    string   `json:"writer"`    // "", "buffer", "plain"
-	Missing   []string `json:"missing"`   // (informational)
-	FaultLoad string   `json:"faultload"` // template name whose Load fails with the sentinel
+	Sandbox     bool     `json:"sandbox"`     // engine has a security policy
+	AllowF      []string `json:"allowf"`      // filters the policy allows
+	AllowFn     []string `json:"allowfn"`     // functions the policy allows
+	FaultID     string   `json:"faultid"`     // spy id whose nth invocation fails
+	FaultNth    int      `json:"faultnth"`    //
+	Loader      bool     `json:"loader"`      // serve templates through an ArrayLoader
+	Debug       bool     `json:"debug"`       // engine debug mode
+	Writer      string   `json:"writer"`      // "", "buffer", "plain"
+	Missing     []string `json:"missing"`     // (informational)
+	FaultLoad   string   `json:"faultload"`   // template name whose Load fails with the sentinel
+	FrontLoader bool     `json:"frontloader"` // an empty ArrayLoader is registered before the real one
 }
 
 type Case struct {
@@ -319,6 +320,9 @@ func renderRun(c *Case, r *Run, ctx map[string]interface{}) (o obs) {
 		srcs[name] = sourceOf(ps, r.Pads)
 	}
 	if c.Cfg.Loader || c.Cfg.FaultLoad != "" {
+		if c.Cfg.FrontLoader {
+			e.RegisterLoader(twig.NewArrayLoader(map[string]string{}))
+		}
 		var l twig.Loader = twig.NewArrayLoader(srcs)
 		if c.Cfg.FaultLoad != "" {
 			l = &faultLoader{inner: l, name: c.Cfg.FaultLoad}
